@@ -33,6 +33,10 @@ type Script struct {
 	Concurrent bool // 4 emitting clients instead of 1
 	Faults     []Fault
 	Seed       int64
+	// Bulk > 0: the (single) emitter also subscribes to Bulk fresh filters with one SUBSCRIBE right after the
+	// first operation and drops them with one UNSUBSCRIBE at the end: more events than one batch of the stream
+	// carries (100) are pending at once
+	Bulk int `json:",omitempty"`
 }
 
 type expEv struct {
@@ -153,12 +157,35 @@ func (p *pair) run(sc *Script, r *monitor.Run) (fs []finding, obs map[string]int
 	emit := func(ci int, n int, lrng *rand.Rand) error {
 		c := clients[ci]
 		subbed := map[string]bool{}
+		var bulk []string
+		for j := 0; j < sc.Bulk && ci == 0 && !sc.Concurrent; j++ {
+			bulk = append(bulk, fmt.Sprintf("u/%s/bulk/%03d", tag, j))
+		}
 		for k := 0; k < n; k++ {
 			ocMu.Lock()
 			i := opCounter
 			opCounter++
 			ocMu.Unlock()
 			applyFaults(i)
+			if len(bulk) > 0 && (k == 1 || k == n-1) {
+				if k == 1 {
+					var subs []mqttx.Sub
+					for _, f := range bulk {
+						subs = append(subs, mqttx.Sub{Filter: f, QoS: 1})
+					}
+					if _, err := c.Subscribe(subs, 0, step); err != nil {
+						return err
+					}
+				} else if _, err := c.Unsubscribe(bulk, step); err != nil {
+					return err
+				}
+				emu.Lock()
+				for _, f := range bulk {
+					expected = append(expected, expEv{map[bool]string{true: "sub", false: "unsub"}[k == 1], f, "", ci})
+				}
+				emu.Unlock()
+				obs["bulk_events"] += len(bulk)
+			}
 			topic := fmt.Sprintf("u/%s/c%d/t%d", tag, ci, lrng.Intn(4))
 			switch x := lrng.Intn(10); {
 			case x < 4:
@@ -379,6 +406,73 @@ func sessionLoss(r *monitor.Run, idx int) {
 	r.Nontrivial(fmt.Sprintf("loss|%d", idx))
 }
 
+// sessionBounce: one node alone sees its peer fail and rejoin (asymmetric failure detection). It opens a new
+// session towards the peer, which still holds the old one: the peer has to notice the new session id, forget
+// what it knew and take the full resynchronisation, whose events are numbered from 0 again.
+func sessionBounce(r *monitor.Run, idx int, rng *rand.Rand) {
+	a, err := fed.Start(fmt.Sprintf("c16BA%d", idx), nil, false, nil)
+	if err != nil {
+		r.Inconclusive(err.Error())
+		return
+	}
+	defer func() { go a.Stop() }()
+	b, err := fed.Start(fmt.Sprintf("c16BB%d", idx), []string{a.Gossip}, true, nil)
+	if err != nil {
+		r.Inconclusive(err.Error())
+		return
+	}
+	defer func() { go b.Stop() }()
+	ca, _ := wire.Dial("ca", a.B.Addr, mqttx.V5)
+	defer ca.Close()
+	cb, _ := wire.Dial("cb", b.B.Addr, mqttx.V5)
+	defer cb.Close()
+	_, _ = ca.Connect(&mqttx.Packet{ClientID: "bounce-a", CleanStart: true}, step)
+	_, _ = cb.Connect(&mqttx.Packet{ClientID: "bounce-b", CleanStart: true}, step)
+	n := 0
+	mutate := func(c *wire.Client, who string, k int) {
+		for i := 0; i < k; i++ {
+			n++
+			f := fmt.Sprintf("bn/%s/%d", who, rng.Intn(8))
+			if rng.Intn(3) == 0 {
+				_, _ = c.Unsubscribe([]string{f}, step)
+			} else {
+				_, _ = c.Subscribe([]mqttx.Sub{{Filter: f, QoS: 1}}, 0, step)
+			}
+		}
+	}
+	mutate(ca, "a", 3+rng.Intn(6))
+	mutate(cb, "b", 3+rng.Intn(6))
+	if !fed.WaitView(b, a, settle) || !fed.WaitView(a, b, settle) {
+		r.Violation("bounce.initial_sync", "views not equal before the bounce", nil)
+		return
+	}
+	rounds := 1 + rng.Intn(3)
+	for k := 0; k < rounds; k++ {
+		side, other := a, b
+		if rng.Intn(2) == 0 {
+			side, other = b, a
+		}
+		if !side.F.VerifBouncePeer(other.Name) {
+			r.Inconclusive("bounce: peer unknown")
+			return
+		}
+		r.Count("one_sided_bounces", 1)
+		mutate(ca, "a", rng.Intn(5))
+		mutate(cb, "b", rng.Intn(5))
+		r.Eval(1)
+		if !fed.WaitView(b, a, settle) {
+			r.Violation("bounce.resync:view_of=A", fmt.Sprintf("after a one-sided fail/join at %s, B's view of A %v never became A's local set %v", side.Name, b.F.VerifFedView(a.Name), a.F.VerifLocalTopics()), map[string]any{"round": k})
+			return
+		}
+		if !fed.WaitView(a, b, settle) {
+			r.Violation("bounce.resync:view_of=B", fmt.Sprintf("after a one-sided fail/join at %s, A's view of B %v never became B's local set %v", side.Name, a.F.VerifFedView(b.Name), b.F.VerifLocalTopics()), map[string]any{"round": k})
+			return
+		}
+	}
+	r.Count("session_bounce_cases", 1)
+	r.Nontrivial(fmt.Sprintf("bounce|%d", idx))
+}
+
 func genScripts(rng *rand.Rand, n int, thorough bool) []Script {
 	var out []Script
 	for i := 0; i < n; i++ {
@@ -402,6 +496,12 @@ func genScripts(rng *rand.Rand, n int, thorough bool) []Script {
 				f.Kind, f.N = "cut_during_resync", 1+rng.Intn(600)
 			}
 			sc.Faults = append(sc.Faults, f)
+		}
+		if i%6 == 2 && !sc.Concurrent {
+			sc.Bulk = 101 + rng.Intn(150)
+			if sc.Ops < 12 {
+				sc.Ops = 12
+			}
 		}
 		out = append(out, sc)
 	}
@@ -471,5 +571,9 @@ func Run(r *monitor.Run) {
 	wg.Wait()
 	for i := 0; i < r.Pick(1, 6); i++ {
 		sessionLoss(r, i)
+	}
+	brng := r.Rand("bounce")
+	for i := 0; i < r.Pick(3, 20); i++ {
+		sessionBounce(r, i, brng)
 	}
 }
